@@ -30,7 +30,8 @@ def ph (k : Nat) (c : Char) (d : Nat) : E :=
       sf ("@" ++ toString k ++ "_" ++ toString i ++ "_" ++ toString j) .undef)))
   else sf ("@" ++ toString k) .undef
 
-/-- **unary leaf step**: a covered class applied to a lowered argument -/
+/-- **unary leaf step**: a covered class applied to a lowered argument returns a value, and every
+    value it returns has the shape and the components of the classical operator -/
 theorem leaf1_sound (S : DRing K) (d : Nat) (hd : 1 ≤ d) (lg : Bool) (o : Op1) (τa τ : Ty)
     (hty : ty1 d o τa = some τ) (cname : String) (c : Char) (r : LeafEntry) (P : E)
     (hk : classKnown cname = true)
@@ -43,12 +44,13 @@ theorem leaf1_sound (S : DRing K) (d : Nat) (hd : 1 ≤ d) (lg : Bool) (o : Op1)
     (a a' : E) (hVF : VF a' = true) (hsig : sigOf d a' = some c)
     (hra : rank d a = rk τa)
     (hP : ∀ i j, InR d τa i j → denG (bindS S (sigmaOf d [a'])) d lg P i j = den S a' i j)
-    (IH : ∀ i j, InR d τa i j → den S a' i j = denG S d lg a i j)
-    (t : E) (h : applyLeaf d cname [a'] = .ok t) :
-    hasShape d τ t = true ∧ ∀ i j, InR d τ i j → den S t i j = denG S d lg (op1 o a) i j := by
+    (IH : ∀ i j, InR d τa i j → den S a' i j = denG S d lg a i j) :
+    (∃ t, applyLeaf d cname [a'] = .ok t) ∧ ∀ t, applyLeaf d cname [a'] = .ok t →
+      hasShape d τ t = true ∧ ∀ i j, InR d τ i j → den S t i j = denG S d lg (op1 o a) i j := by
   have hsigs : [a'].mapM (sigOf d) = some [c] := by simp [hsig]
-  rw [applyLeaf_formula d cname [a'] [c] r.F hk hsigs hl] at h
+  rw [applyLeaf_formula d cname [a'] [c] r.F hk hsigs hl]
   have hσ := sigmaOf_LS d [a'] (by simpa using hVF)
+  refine ⟨inst_shape_total d _ hσ τ r.F hF, fun t h => ?_⟩
   obtain ⟨hshape, hden⟩ := inst_shape S d _ hσ τ r.F hF t h
   refine ⟨hshape, fun i j hij => ?_⟩
   rw [hden i j]
@@ -82,15 +84,16 @@ theorem leaf2_sound (S : DRing K) (d : Nat) (hd : 1 ≤ d) (lg : Bool) (o : Op2)
     (hP : ∀ i j, InR d τa i j → denG (bindS S (sigmaOf d [a', b'])) d r.lg P i j = den S a' i j)
     (hQ : ∀ i j, InR d τb i j → denG (bindS S (sigmaOf d [a', b'])) d r.lg Q i j = den S b' i j)
     (IHa : ∀ i j, InR d τa i j → den S a' i j = denG S d lg a i j)
-    (IHb : ∀ i j, InR d τb i j → den S b' i j = denG S d lg b i j)
-    (t : E) (h : applyLeaf d cname [a', b'] = .ok t) :
-    hasShape d τ t = true ∧ ∀ i j, InR d τ i j → den S t i j = denG S d lg (op2 o a b) i j := by
+    (IHb : ∀ i j, InR d τb i j → den S b' i j = denG S d lg b i j) :
+    (∃ t, applyLeaf d cname [a', b'] = .ok t) ∧ ∀ t, applyLeaf d cname [a', b'] = .ok t →
+      hasShape d τ t = true ∧ ∀ i j, InR d τ i j → den S t i j = denG S d lg (op2 o a b) i j := by
   have hsigs : [a', b'].mapM (sigOf d) = some [ca, cb] := by simp [hsiga, hsigb]
-  rw [applyLeaf_formula d cname [a', b'] [ca, cb] r.F hk hsigs hl] at h
+  rw [applyLeaf_formula d cname [a', b'] [ca, cb] r.F hk hsigs hl]
   have hσ := sigmaOf_LS d [a', b'] (by
     intro x hx
     simp only [List.mem_cons, List.not_mem_nil, or_false] at hx
     rcases hx with rfl | rfl <;> assumption)
+  refine ⟨inst_shape_total d _ hσ τ r.F hF, fun t h => ?_⟩
   obtain ⟨hshape, hden⟩ := inst_shape S d _ hσ τ r.F hF t h
   refine ⟨hshape, fun i j hij => ?_⟩
   rw [hden i j]
@@ -420,5 +423,92 @@ theorem foldMul_sound (S : DRing K) (d : Nat) (ts : List E) (τs : List Ty) (acc
         have := ih acc' τ' hx'.1 hτ h
         refine ⟨this.1, fun i j => ?_⟩
         rw [this.2 i j, hx'.2 i j]; simp only [denProd]; ring
+
+/-! ### sums and products never fail on values of matching shapes -/
+
+/-- outside dimension 1 two lowered values of one type have the same form, and their sum exists -/
+theorem addV_total (d : Nat) (hd : d ≠ 1) (τ : Ty) (a b : E)
+    (ha : hasShape d τ a = true) (hb : hasShape d τ b = true) : ∃ t, addV a b = .ok t := by
+  by_cases hma : ∃ r c es, a = mat r c es
+  · obtain ⟨r, c, es, rfl⟩ := hma
+    obtain ⟨hr, hc, _, _, hτ⟩ := hasShape_mat d τ r c es ha
+    by_cases hmb : ∃ r c es, b = mat r c es
+    · obtain ⟨r', c', es', rfl⟩ := hmb
+      obtain ⟨hr', hc', _, _, _⟩ := hasShape_mat d τ r' c' es' hb
+      subst r c r' c'
+      simp [addV]
+    · have hb' := hasShape_nonmat d τ b hb (by intro r c es he; exact hmb ⟨r, c, es, he⟩)
+      rcases hb'.2 with h1 | h1
+      · exact absurd h1 hτ
+      · exact absurd h1 hd
+  · have ha' := hasShape_nonmat d τ a ha (by intro r c es he; exact hma ⟨r, c, es, he⟩)
+    by_cases hmb : ∃ r c es, b = mat r c es
+    · obtain ⟨r', c', es', rfl⟩ := hmb
+      obtain ⟨_, _, _, _, hτ⟩ := hasShape_mat d τ r' c' es' hb
+      rcases ha'.2 with h1 | h1
+      · exact absurd h1 hτ
+      · exact absurd h1 hd
+    · have hb' := hasShape_nonmat d τ b hb (by intro r c es he; exact hmb ⟨r, c, es, he⟩)
+      exact ⟨_, addV_LS a b ha'.1 hb'.1⟩
+
+theorem mulV_total (d : Nat) (τa τb τ : Ty) (a b : E)
+    (ha : hasShape d τa a = true) (hb : hasShape d τb b = true) (htm : tmul τa τb = some τ) :
+    ∃ t, mulV a b = .ok t := by
+  by_cases hma : ∃ r c es, a = mat r c es
+  · obtain ⟨r, c, es, rfl⟩ := hma
+    obtain ⟨_, _, _, _, hτ⟩ := hasShape_mat d τa r c es ha
+    by_cases hmb : ∃ r c es, b = mat r c es
+    · obtain ⟨r', c', es', rfl⟩ := hmb
+      obtain ⟨_, _, _, _, hτ'⟩ := hasShape_mat d τb r' c' es' hb
+      rcases tmul_cases τa τb τ htm with h1 | h1
+      · exact absurd h1.1 hτ
+      · exact absurd h1.1 hτ'
+    · have hb' := hasShape_nonmat d τb b hb (by intro r c es he; exact hmb ⟨r, c, es, he⟩)
+      exact ⟨_, mulV_mat_LS b hb'.1 r c es⟩
+  · have ha' := hasShape_nonmat d τa a ha (by intro r c es he; exact hma ⟨r, c, es, he⟩)
+    by_cases hmb : ∃ r c es, b = mat r c es
+    · obtain ⟨r', c', es', rfl⟩ := hmb
+      exact ⟨_, mulV_LS_mat a ha'.1 r' c' es'⟩
+    · have hb' := hasShape_nonmat d τb b hb (by intro r c es he; exact hmb ⟨r, c, es, he⟩)
+      exact ⟨_, mulV_LS a b ha'.1 hb'.1⟩
+
+theorem foldAdd_total (S : DRing K) (d : Nat) (hd : d ≠ 1) (τ : Ty) (ts : List E) (acc : E)
+    (hacc : hasShape d τ acc = true) (hts : ∀ x ∈ ts, hasShape d τ x = true) :
+    ∃ t, ts.foldlM addV acc = .ok t := by
+  induction ts generalizing acc with
+  | nil => exact ⟨acc, rfl⟩
+  | cons x ts ih =>
+    obtain ⟨acc', h1⟩ := addV_total d hd τ acc x hacc (hts x (by simp))
+    have hx := addV_sound S d τ acc x acc' hacc (hts x (by simp)) h1
+    obtain ⟨t, ht⟩ := ih acc' hx.1 (fun y hy => hts y (by simp [hy]))
+    exact ⟨t, by simp only [List.foldlM_cons, bind, Except.bind, h1, ht]⟩
+
+theorem foldMul_total (S : DRing K) (d : Nat) (ts : List E) (τs : List Ty) (acc : E) (τacc τ : Ty)
+    (hacc : hasShape d τacc acc = true)
+    (hts : List.Forall₂ (fun x τx => hasShape d τx x = true) ts τs)
+    (hτ : tmulList τacc τs = some τ) : ∃ t, ts.foldlM mulV acc = .ok t := by
+  induction hts generalizing acc τacc with
+  | nil => exact ⟨acc, rfl⟩
+  | @cons x τx ts τs hx _ ih =>
+    simp only [tmulList] at hτ
+    cases hm : tmul τacc τx with
+    | none => rw [hm] at hτ; simp at hτ
+    | some τ' =>
+      rw [hm] at hτ
+      simp only [Option.bind_some] at hτ
+      obtain ⟨acc', h1⟩ := mulV_total d τacc τx τ' acc x hacc hx hm
+      have hx' := mulV_sound S d τacc τx τ' acc x acc' hacc hx hm h1
+      obtain ⟨t, ht⟩ := ih acc' τ' hx'.1 hτ
+      exact ⟨t, by simp only [List.foldlM_cons, bind, Except.bind, h1, ht]⟩
+
+/-- closes a "reading" goal once dimension, type, signature and argument forms are concrete -/
+syntax "reads_tac" : tactic
+macro_rules
+  | `(tactic| reads_tac) => `(tactic|
+      (intro i j hij
+       simp only [InR] at hij
+       obtain ⟨hi, hj⟩ := hij
+       (try subst hi) <;> (try subst hj) <;> (try interval_cases i) <;> (try interval_cases j) <;>
+         (try simp only [den_mat_nth]) <;> rfl))
 
 end Sympde.Lower
